@@ -64,8 +64,8 @@ Inductive target := TInst (o : obj) | TCls (c : cls).
 
 (* One step of a history.  [NewClass bases] creates class number (#classes so far) — a class's
    bases never change afterwards; [NewInstance c] creates instance number (#instances so far).
-   The nine declaration calls; decorators are applied as calls ([Implementer l c] =
-   ``implementer(*l)(C)``, [Provider t l] = ``provider(*l)(t)``). *)
+   The nine declaration calls; decorators are applied as calls ([Implementer c l] is
+   implementer applied to l and then to class c, [Provider t l] likewise). *)
 Inductive op :=
 | NewClass (bases : list cls)
 | NewInstance (c : cls)
